@@ -102,7 +102,107 @@ class HeapOps(HeapExecutor):
             out.append((o2, v if o2.running else None))
         return out
 
+    # ------------------------------------------------------------------ sets (opaque values with a length)
+    def _new_set(self, st, k):
+        self._sets = getattr(self, '_sets', {})
+        v = tm.Ctor('VOpq', const(fresh_name('set'), INT))
+        self._sets[v] = k
+        return v
+
+    def py_set(self, e, st):
+        """set() and set(map(f, xs)) over a heap list: an opaque value whose length is characterised by
+        0 <= len <= len(xs)  and  len == len(xs)  <=>  f is injective on the items of xs.
+        (keys are compared structurally: sound for keys built from str/int/None/tuples of those)"""
+        if e.keywords or len(e.args) > 1:
+            raise Unsupported('set() form at line %s' % e.lineno)
+        if not e.args:
+            return [(st, self._new_set(st, intlit(0)))]
+        arg = e.args[0]
+        if not (isinstance(arg, ast.Call) and isinstance(arg.func, ast.Name) and arg.func.id == 'map'
+                and 'map' not in st.env and len(arg.args) == 2 and not arg.keywords):
+            raise Unsupported('set(<expr>) other than set(map(f, xs)) at line %s' % e.lineno)
+        out = []
+        for o, vals in self.ev_list(list(arg.args), st):
+            if not o.running:
+                out.append((o, None))
+                continue
+            fv, xs = vals
+            if not (xs.op == 'ctor' and xs.args[0] == 'VRef') and not (o.kcls.get(xs)):
+                raise Unsupported('set(map(f, xs)) over a non-heap sequence at line %s' % e.lineno)
+            l = self.rv(xs)
+            n = self.list_len(l, o)
+
+            def key_at(idx):
+                q = o.assume(And(Le(intlit(0), idx), Lt(idx, n)))
+                if q is None:
+                    return None, []
+                it = self.list_item(l, idx, q)
+                self.know_item(q, xs, it)
+                outs = self.call_callable(fv, [it], {}, q, e)
+                outs = [(s2, v) for s2, v in outs if s2.running or self.path_feasible(s2)]
+                outs = self.merge(outs, q)
+                if len(outs) != 1 or not outs[0][0].running:
+                    raise Unsupported('key function of set(map(..)) is not total at line %s' % e.lineno)
+                s2, v = outs[0]
+                return v, list(s2.pc[len(q.pc):])
+            i = bvar(fresh_name('si'), INT)
+            j = bvar(fresh_name('sj'), INT)
+            ki, fi_ = key_at(i)
+            kj, fj_ = key_at(j)
+            k = const(fresh_name('setlen'), INT)
+            o2 = o.copy()
+            if ki is None:
+                o2 = o2.assume(Eq(k, intlit(0)))
+            else:
+                rng = And(Le(intlit(0), i), Lt(i, j), Lt(j, n))
+                distinct = Forall([i, j], Implies(And(rng, *(fi_ + fj_)), Not(Eq(ki, kj))))
+                o2 = o2.assume(And(Le(intlit(0), k), Le(k, n), Eq(Eq(k, n), distinct),
+                                   Implies(Gt(n, intlit(0)), Gt(k, intlit(0)))))
+            out.append((o2, self._new_set(o2, k)))
+        return out
+
+    def py_len(self, v, st, node):
+        if v in getattr(self, '_sets', {}):
+            return [(st, VInt(self._sets[v]))]
+        return super().py_len(v, st, node)
+
+    # ------------------------------------------------------------------ lambdas (first-class, inlined at the call)
+    def make_lambda(self, node, fi, env):
+        a = node.args
+        if a.vararg or a.kwarg or a.kwonlyargs or a.defaults:
+            raise Unsupported('lambda with defaults/varargs at line %s' % node.lineno)
+        self._lambdas = getattr(self, '_lambdas', {})
+        v = tm.Ctor('VOpq', const('lambda!%d!%d' % (node.lineno, node.col_offset), INT))
+        self._lambdas[v] = (node, fi, dict(env))
+        return v
+
+    def call_lambda(self, fv, args, kw, st, node):
+        lam, fi, cenv = self._lambdas[fv]
+        params = [x.arg for x in lam.args.args]
+        if kw or len(args) != len(params):
+            return [(st.raise_('TypeError', node.lineno), None)]
+        o = st.copy()
+        saved = o.env
+        env = dict(cenv)
+        env.update(zip(params, args))
+        o.env = env
+        if fi is not None:
+            self.cur_func.append(fi)
+        try:
+            outs = self.ev(lam.body, o)
+        finally:
+            if fi is not None:
+                self.cur_func.pop()
+        res = []
+        for o2, v in outs:
+            o2 = o2.copy()
+            o2.env = saved
+            res.append((o2, v))
+        return res
+
     def call_callable(self, fv, args, kw, st, node):
+        if fv in getattr(self, '_lambdas', {}):
+            return self.call_lambda(fv, args, kw, st, node)
         if fv.op == 'ctor' and fv.args[0] == 'VCls' and fv.args[1].op == 'int':
             name = [n for n, i in self.class_ids.items() if i == fv.args[1].args[0]][0]
             if name in self.prog.classes:
@@ -575,6 +675,14 @@ class HeapOps(HeapExecutor):
         inv_src = c.invariants.get(ordn) if c is not None else None
         if inv_src is None:
             raise Unsupported('loop %d of %s has no invariant in the sidecar (line %s)' % (ordn, fi.fid, s.lineno))
+        if inv_src.strip() == 'False':
+            # the sidecar claims this loop is unreachable in every verified context: the only obligation is
+            # that the path condition at the loop head is contradictory; nothing continues from here
+            st = st.copy()
+            st.obls.append(('inv[loop%d].init' % ordn, list(st.pc), FALSE,
+                            'the loop at line %s is unreachable' % s.lineno))
+            st.status = 'cut'
+            return [st]
         if self.writes_heap(s.body):
             raise Unsupported('loop body writes the heap (line %s)' % s.lineno)
         l = self.rv(it)
